@@ -260,9 +260,14 @@ class Runner:
             names = {p: r.choice(dirs) + nm for p, nm in names.items()}
             toggles = [("undefined_name", False), ("possibly_undefined_name", False), ("incompatible_argument", False), ("unused_variable", False),
                        ("for_loop_always_entered", True), ("missing_return_annotation", True), ("incompatible_call", False), ("value_always_true", False)]
+            toggles += [("reveal_type", False), ("undefined_attribute", False), ("incompatible_assignment", False)]
             overrides = []
-            for prefix in r.sample(["pkga", "pkga.strict", "pkga.other", "pkgb", "pkgb.deep", "pkgb.deep.er"], r.randint(2, 5)):
+            # always one nested pair (outer package and a sub-package of it), plus random others
+            nested = r.choice([["pkga", "pkga.strict"], ["pkga", "pkga.other"], ["pkgb", "pkgb.deep"], ["pkgb.deep", "pkgb.deep.er"]])
+            rest = [x for x in ["pkga", "pkga.strict", "pkga.other", "pkgb", "pkgb.deep", "pkgb.deep.er"] if x not in nested]
+            for prefix in nested + r.sample(rest, r.randint(0, 3)):
                 overrides.append([prefix, dict(r.sample(toggles, r.randint(1, 3)))])
+            r.shuffle(overrides)
             if r.chance(0.5):
                 some = r.choice(sorted(names.values()))
                 overrides.append([some[:-3].replace("/", "."), dict(r.sample(toggles, 2))])
